@@ -43,6 +43,14 @@ func (g *Gen) call(fr *frame, st *State, site ssa.Instruction, cc *ssa.CallCommo
 			// function-typed field or variable
 			key = g.funcFieldTarget(fr, cc.Value)
 			if key == "" {
+				if u, ok := cc.Value.(*ssa.UnOp); ok {
+					if gl, ok := u.X.(*ssa.Global); ok {
+						key = gl.Pkg.Pkg.Path() + "." + gl.Name()
+						g.note("package-level function variable " + shortKey(key) + " is bound to its contract (assumed never reassigned)")
+					}
+				}
+			}
+			if key == "" {
 				g.errorf("%s: call through function value %s (no funcfield binding)", funcKey(fr.fn), exprOr(fr.text[cc.Value], cc.Value.Name()))
 				return g.freshValue(st, "dyncall", rt)
 			}
@@ -53,6 +61,12 @@ func (g *Gen) call(fr *frame, st *State, site ssa.Instruction, cc *ssa.CallCommo
 	}
 	for _, a := range cc.Args {
 		args = append(args, g.val(fr, st, a))
+	}
+	if fr.fc != nil && len(fr.fc.AtCall) > 0 {
+		for i, cl := range fr.fc.AtCall[shortName(key)] {
+			env := &Env{g: g, st: st, old: fr.old, vars: map[string]*Value{}, fr: fr, pkgPath: fr.fn.Pkg.Pkg.Path(), inBody: true}
+			g.addOblig(st, "assert", fmt.Sprintf("at.%s.%s", shortName(key), clauseName(cl, i)), env.evalBool(cl.E), cl.Src)
+		}
 	}
 	fc := g.W.C.Funcs[key]
 	// inline: closures created here, or functions marked inline
@@ -238,9 +252,23 @@ func (g *Gen) applyContract(fr *frame, st *State, fc *FuncContract, key string, 
 		post[k] = v
 	}
 	g.bindResults(post, res, callee, cc)
-	for _, c := range fc.Ensures {
+	for i, c := range fc.Ensures {
 		env := &Env{g: g, st: st, old: pre, vars: post, pkgPath: pkgPath}
-		g.assume(st, env.evalBool(c.E))
+		t := env.evalBool(c.E)
+		// a clause with a recorded finding is not assumed inside the failing class (or at all, if the
+		// finding has no witness class): callers must not build on what is known to be false
+		if f, ok := g.W.Findings[shortKey(key)+"#post."+clauseName(c, i)]; ok {
+			if f.Except == "" {
+				continue
+			}
+			ex, err := parseExpr(f.Except)
+			if err != nil {
+				continue
+			}
+			penv := &Env{g: g, st: pre, old: pre, vars: vars, pkgPath: pkgPath}
+			t = smtImp(smtNot(penv.evalBool(ex)), t)
+		}
+		g.assume(st, t)
 	}
 	return res
 }
